@@ -16,7 +16,7 @@
 
 from fractions import Fraction
 from collections import OrderedDict
-from typing import List, Optional, FrozenSet, Union, cast
+from typing import List, Optional, FrozenSet, Union, cast, Set
 import unified_planning as up
 import unified_planning.environment
 from unified_planning.exceptions import UPUnreachableCodeError
@@ -24,6 +24,18 @@ import unified_planning.model.walkers as walkers
 from unified_planning.model.fnode import FNode
 from unified_planning.model.types import _UserType
 import unified_planning.model.operators as op
+
+
+def _quantified_variables(expression: FNode) -> Set["up.model.variable.Variable"]:
+    """Returns the variables bound by some quantifier inside the given expression."""
+    res: Set["up.model.variable.Variable"] = set()
+    stack = [expression]
+    while stack:
+        e = stack.pop()
+        if e.is_exists() or e.is_forall():
+            res.update(e.variables())
+        stack.extend(e.args)
+    return res
 
 
 class Simplifier(walkers.dag.DagWalker):
